@@ -49,11 +49,8 @@ Theorem C06_strip_nulls : forall v, wfb v = true -> top_ok v -> forall buf,
 Proof. exact strip_nulls_on_enc. Qed.
 Print Assumptions C06_strip_nulls.
 
-(* documented errors append nothing: an error result carries no buffer *)
-Theorem C06_error_appends_nothing : forall buf r,
-  append_enc buf r = match r with Ok v => Ok (buf ++ enc v) | Err e => Err e | Panic => Panic end.
-Proof. exact append_enc_frame. Qed.
-Print Assumptions C06_error_appends_nothing.
+(* (the view-level model above cannot say what an error leaves in the caller's buffer -- an `Err` carries none; that part
+   of the property is C06_errors_leave_the_buffer_unchanged below, about the state functions of the byte walkers) *)
 
 (* ------------------------------------------------------------------------------------------------------------------ *)
 (* The editors as the code runs them on bytes (EditWalk.v: header reads, the iterators of iterator.rs, raw (jentry,
@@ -256,3 +253,112 @@ Proof.
   split; [exact strip_item_fuel|exact del_item_fuel].
 Qed.
 Print Assumptions C06_fuel_never_exhausted.
+
+(* ------------------------------------------------------------------------------------------------------------------ *)
+(* "Documented error cases ... return the documented error and leave the output buffer as it was."
+   The Rust editors take `buf: &mut Vec<u8>`; the byte walkers are state functions over that buffer (BufSt.v):
+   `f_st args buf` = (the buffer AS THE CALL LEAVES IT, the outcome), able to express "bytes were pushed, then Err was
+   returned" (build_array / build_object do).  The driver prints the buffer the model computed next to the one the Rust
+   function left, on Ok and on Err, also on corrupt inputs.
+   On encodings of well-formed documents (`st_spec buf r`: Ok y => (buf ++ enc y, Ok tt) | Err e => (buf, Err e)): *)
+From JB Require Import BufSt EditStProofs EditFrame EditStEnc.
+From JB Require SetWalk.
+
+Theorem C06_errors_leave_the_buffer_unchanged : forall v buf, wfb v = true -> top_ok v ->
+  (forall name, delete_by_name_st (enc v) name buf = st_spec buf (delete_by_name_t v name)) /\
+  (forall i, delete_by_index_st (enc v) i buf = st_spec buf (delete_by_index_t v i)) /\
+  (forall ks, delete_by_keypath_st (enc v) ks buf = st_spec buf (delete_by_keypath_t v ks)) /\
+  (forall ks, object_delete_st (enc v) ks buf = st_spec buf (object_delete_t v ks)) /\
+  (forall ks, object_pick_st (enc v) ks buf = st_spec buf (object_pick_t v ks)) /\
+  (forall x key upd, wfb x = true -> top_ok x -> (forall y, object_insert_t v key x upd = Ok y -> wf_size y = true) ->
+     object_insert_st (enc v) key (enc x) upd buf = st_spec buf (object_insert_t v key x upd)).
+Proof.
+  intros v buf W T. repeat match goal with |- _ /\ _ => split end; intros.
+  - apply delete_by_name_st_enc; assumption.
+  - apply delete_by_index_st_enc; assumption.
+  - apply delete_by_keypath_st_enc; assumption.
+  - apply object_delete_st_enc; assumption.
+  - apply object_pick_st_enc; assumption.
+  - apply object_insert_st_enc; assumption.
+Qed.
+Print Assumptions C06_errors_leave_the_buffer_unchanged.
+
+(* the documented errors one by one: InvalidJsonType for delete_by_name / delete_by_keypath on a scalar and
+   delete_by_index on a non-array, InvalidObject for the object editors on a non-object, the duplicate-key error of
+   object_insert without update_flag -- each returned with the buffer exactly as it was *)
+Theorem C06_documented_errors : forall v buf, wfb v = true -> top_ok v ->
+  (forall name, (match v with VArr _ | VObj _ => False | _ => True end) ->
+     delete_by_name_st (enc v) name buf = (buf, Err EInvalidJsonType)) /\
+  (forall i, (match v with VArr _ => False | _ => True end) ->
+     delete_by_index_st (enc v) i buf = (buf, Err EInvalidJsonType)) /\
+  (forall ks, (match v with VArr _ | VObj _ => False | _ => True end) ->
+     delete_by_keypath_st (enc v) ks buf = (buf, Err EInvalidJsonType)) /\
+  (forall ks, (match v with VObj _ => False | _ => True end) ->
+     object_delete_st (enc v) ks buf = (buf, Err EInvalidObject) /\
+     object_pick_st (enc v) ks buf = (buf, Err EInvalidObject)) /\
+  (forall x key upd, wfb x = true -> top_ok x -> (match v with VObj _ => False | _ => True end) ->
+     object_insert_st (enc v) key (enc x) upd buf = (buf, Err EInvalidObject)) /\
+  (forall o x key, v = VObj o -> wfb x = true -> top_ok x -> assoc_lookup key o <> None ->
+     object_insert_st (enc v) key (enc x) false buf = (buf, Err EDupKey)).
+Proof. exact documented_errors_leave_buffer. Qed.
+Print Assumptions C06_documented_errors.
+
+(* the editors without a documented error on valid input: the buffer as left is the old content followed by exactly the
+   edited document *)
+Theorem C06_success_buffer_state : forall buf,
+  (forall a b, wfb a = true -> top_ok a -> wfb b = true -> top_ok b -> wf_size (concat_t a b) = true ->
+     concat_st (enc a) (enc b) buf = (buf ++ enc (concat_t a b), Ok tt)) /\
+  (forall v pos x, wfb v = true -> top_ok v -> wfb x = true -> top_ok x -> wf_size (array_insert_t v pos x) = true ->
+     array_insert_st (enc v) pos (enc x) buf = (buf ++ enc (array_insert_t v pos x), Ok tt)) /\
+  (forall v, wfb v = true -> top_ok v -> strip_nulls_st (enc v) buf = (buf ++ enc (strip_nulls_t v), Ok tt)).
+Proof.
+  intros buf. repeat match goal with |- _ /\ _ => split end; intros.
+  - apply concat_st_enc; assumption.
+  - apply array_insert_st_enc; assumption.
+  - apply strip_nulls_st_enc; assumption.
+Qed.
+Print Assumptions C06_success_buffer_state.
+
+(* on ARBITRARY input bytes (truncated, corrupted, JSON text that does not parse, garbage) and any buffer: whenever an
+   editor returns an error -- any error -- the buffer is exactly as it was (`err_leaves`; likewise at a panic, where it
+   cannot be observed).  Every editor's only write is its last step, after every `?`: array_insert reads the header of
+   new_value after it has collected and pushed items, object_insert finds the duplicate key, all before build_into. *)
+Theorem C06_errors_leave_the_buffer_unchanged_on_any_input :
+  (forall l r, err_leaves (concat_st l r)) /\
+  (forall bs name, err_leaves (delete_by_name_st bs name)) /\
+  (forall bs i, err_leaves (delete_by_index_st bs i)) /\
+  (forall bs pos nv, err_leaves (array_insert_st bs pos nv)) /\
+  (forall bs key nv upd, err_leaves (object_insert_st bs key nv upd)) /\
+  (forall bs ks, err_leaves (object_delete_st bs ks)) /\
+  (forall bs ks, err_leaves (object_pick_st bs ks)) /\
+  (forall bs, err_leaves (strip_nulls_st bs)) /\
+  (forall bs ks, err_leaves (delete_by_keypath_st bs ks)) /\
+  (forall bs, err_leaves (SetWalk.array_distinct_st bs)) /\
+  (forall l r, err_leaves (SetWalk.array_intersection_st l r)) /\
+  (forall l r, err_leaves (SetWalk.array_except_st l r)).
+Proof. exact editors_errors_leave_buffer_on_any_input. Qed.
+Print Assumptions C06_errors_leave_the_buffer_unchanged_on_any_input.
+
+(* build_array / build_object are the exception (recorded observation, not a property violation on valid items: on
+   valid items they never fail, C06_build_state_bytes): an item with an invalid header makes them return an error AFTER
+   they have written -- what is left is the reserved header slot (four zero bytes) and the entry words written so far *)
+Theorem C06_build_error_leaves : forall buf e,
+  (forall items, snd (build_array_st items buf) = Err e ->
+     fst (build_array_st items buf) = buf ++ repeat 0 4 ++ ba_entries items) /\
+  (forall keys items, snd (build_object_st keys items buf) = Err e ->
+     fst (build_object_st keys items buf) = buf ++ repeat 0 4 ++ bo_entries (assoc_of_list (combine keys items))).
+Proof. intros buf e. split; intros; [apply (build_array_st_error_leaves items buf e)|apply (build_object_st_error_leaves keys items buf e)]; assumption. Qed.
+Print Assumptions C06_build_error_leaves.
+
+(* not vacuous: success, three documented errors, a truncated new_value (array_insert fails after it collected the
+   items), a text that does not parse, and build_array leaving bytes behind *)
+Example C06_buffer_state_examples :
+  wfb st_doc = true /\ top_ok st_doc /\
+  delete_by_name_st (enc st_doc) [97] [7; 8] = ([7; 8] ++ enc (VObj [([99], VNull)]), Ok tt) /\
+  delete_by_index_st (enc st_doc) 0%Z [7; 8] = ([7; 8], Err EInvalidJsonType) /\
+  object_insert_st (enc st_doc) [97] (enc VNull) false [7; 8] = ([7; 8], Err EDupKey) /\
+  object_pick_st (enc (VArr [VNull])) [[97]] [7; 8] = ([7; 8], Err EInvalidObject) /\
+  array_insert_st (enc (VArr [VNull; VNull])) 1%Z [32; 0] [7; 8] = ([7; 8], Err EOther) /\
+  strip_nulls_st [123; 125; 125] [7; 8] = ([7; 8], Err EOther) /\
+  build_array_st [enc VNull; [96; 0; 0; 0]] [7; 8] = ([7; 8; 0; 0; 0; 0; 0; 0; 0; 0], Err EOther).
+Proof. exact st_examples. Qed.
